@@ -431,27 +431,32 @@ func (s *state) visitDataRef(node *ast.DataRefNode) {
 	}
 
 	// Nullsafe access makes this complicated.
-	// FOO.BAR?.BAZ => (FOO.BAR == null ? null : FOO.BAR.BAZ)
+	// FOO.BAR?.BAZ => ((FOO.BAR == null) ? null : FOO.BAR.BAZ)
+	// The conditional is parenthesised as a whole: it may be the operand of anything.
+	var closers = ""
 	for _, accessNode := range node.Access {
 		switch node := accessNode.(type) {
 		case *ast.DataRefIndexNode:
 			if node.NullSafe {
-				s.js("(", expr, " == null) ? null : ")
+				s.js("((", expr, " == null) ? null : ")
+				closers += ")"
 			}
 			expr += "[" + strconv.Itoa(node.Index) + "]"
 		case *ast.DataRefKeyNode:
 			if node.NullSafe {
-				s.js("(", expr, " == null) ? null : ")
+				s.js("((", expr, " == null) ? null : ")
+				closers += ")"
 			}
 			expr += "." + node.Key
 		case *ast.DataRefExprNode:
 			if node.NullSafe {
-				s.js("(", expr, " == null) ? null : ")
+				s.js("((", expr, " == null) ? null : ")
+				closers += ")"
 			}
 			expr += "[" + s.block(node.Arg) + "]"
 		}
 	}
-	s.js(expr)
+	s.js(expr, closers)
 }
 
 func (s *state) visitCall(node *ast.CallNode) {
